@@ -10,7 +10,7 @@ import (
 
 // Shapes lists every data shape known to the generator.
 var Shapes = []string{"random", "text", "utf8", "utf8wide", "dna", "dnalines", "exe", "wav", "bmp",
-	"runs", "smallalpha", "skew", "zeros", "gzipmagic", "mixed", "ramp", "numeric", "html", "sparse", "x86", "hex", "nibbles", "alpha15", "alpha17", "base64", "dnarep", "bmptile", "crlfsplit", "tailrandom", "utf8cjk", "utf8dmg", "magictext", "magicmix", "hotquarter", "piecewise", "wordlist"}
+	"runs", "smallalpha", "skew", "zeros", "gzipmagic", "mixed", "ramp", "numeric", "html", "sparse", "x86", "hex", "nibbles", "alpha15", "alpha17", "base64", "dnarep", "bmptile", "crlfsplit", "tailrandom", "utf8cjk", "utf8dmg", "magictext", "magicmix", "hotquarter", "piecewise", "wordlist", "diskimg", "manual"}
 
 var words = strings.Fields(`the of and to in is that it was for on are as with his they be at one have this from
 or had by hot word but what some we can out other were all there when up use your how said an each she which do
@@ -143,6 +143,36 @@ func Make(shape string, seed int64, n int) []byte {
 				binary.LittleEndian.PutUint32(d[i:], instr)
 			}
 			b = append(b, d...)
+		case "codepoints":
+			// UTF-8 text of 3-byte characters with exactly v distinct code points (each used, most of them many times)
+			cp := func(k int) rune { return rune(0x4E00 + k) }
+			var sb []byte
+			for k := 0; k < v && len(sb)+3 <= n-8; k++ {
+				sb = append(sb, string(cp(k))...)
+			}
+			for len(sb)+3 <= n-8 {
+				sb = append(sb, string(cp(r.Intn(min(v, 64))))...)
+			}
+			b = append(b, sb...)
+			for len(b) < n {
+				b = append(b, ' ')
+			}
+		case "records":
+			// fixed-width records of v bytes (the last one a line feed) drawn in random order from 48 distinct values
+			var vals [][]byte
+			for k := 0; k < 48; k++ {
+				rec := make([]byte, v)
+				for i := range rec {
+					rec[i] = byte('A' + r.Intn(26))
+				}
+				if v > 0 {
+					rec[v-1] = '\n'
+				}
+				vals = append(vals, rec)
+			}
+			for len(b) < n && v > 0 {
+				b = append(b, vals[r.Intn(len(vals))]...)
+			}
 		case "taildmg":
 			// valid multi-byte text whose v-th byte from the end is the lead byte of a 3-byte character followed by a byte that is
 			// not a continuation byte (the last few bytes of a block are where a cut character may legitimately sit)
@@ -630,6 +660,33 @@ func Make(shape string, seed int64, n int) []byte {
 					recent = append(recent[1:], w)
 				}
 			}
+		}
+	case "diskimg":
+		// a disk image: a good third of zero sectors, the rest looks encrypted (every byte value is frequent, zero dominates)
+		for len(b) < n {
+			sec := make([]byte, 512)
+			if r.Intn(100) >= 38 {
+				r.Read(sec)
+			}
+			b = append(b, sec...)
+		}
+	case "manual":
+		// a paginated manual: words, numbers, and page breaks written as form feed / vertical tab right after a word
+		// that has often not been seen before (page numbers in words, section names)
+		syll := []string{"ka", "to", "mi", "ra", "ne", "so", "lu", "vi", "po", "de", "xa", "qui", "zen", "bor", "tal"}
+		for len(b) < n {
+			for l := 0; l < 30 && len(b) < n; l++ {
+				for wd := 0; wd < 8; wd++ {
+					b = append(b, words[r.Intn(len(words))]...)
+					b = append(b, ' ')
+				}
+				b = append(b, '\n')
+			}
+			// a fresh word directly followed by the page break
+			for k := 2 + r.Intn(3); k > 0; k-- {
+				b = append(b, syll[r.Intn(len(syll))]...)
+			}
+			b = append(b, []byte{'\f', '\v', '\f'}[r.Intn(3)])
 		}
 	case "hotquarter":
 		// skewed and not stationary: half 0x00, a quarter 0x01, and the other 254 values concentrated in one 4 KiB quarter of
